@@ -356,10 +356,10 @@ def STRIP(name):
 
 
 def COMPONENTS(name):
-    """the components of a full name separated by '.'"""
-    if smt():
-        return _eng().lib.split_seq(speclib.CTX, name, ".") if not isinstance(name, str) else name.split(".")
-    return name.split(".")
+    """the components of a full name separated by '.'  (shared definition: specs/names.py NAME_PARTS)"""
+    from .names import NAME_PARTS
+
+    return NAME_PARTS(name)
 
 
 def AS_PATH(p):
@@ -1177,7 +1177,9 @@ def _opt_same(a, b):
 
 def ROOT_NS(t):
     """the root namespace of a composite: the first component of its full name"""
-    return AT(COMPONENTS(t._name), 0) if smt() else t.full_name.split(".")[0]
+    from .names import ROOT_NAMESPACE_OF
+
+    return ROOT_NAMESPACE_OF(t._name) if smt() else t.full_name.split(".")[0]
 
 
 def _seq_eq_str(a, b):
@@ -1264,11 +1266,9 @@ class _FullNamespace:
     value = staticmethod(lambda s: FULL_NAMESPACE(s.self))
 
     def post(s):
-        c = COMPONENTS(s.self._name)
-        r = COMPONENTS(s.result)
-        ok = AND(LEN(c) >= 2, FORALL_IDX(c, lambda i, x: NOT(z3.Contains(x, z3.StringVal(".")) if smt() else "." in x)))
-        return {"components-are-all-but-the-last": IMPLIES(LEN(c) >= 2, lambda: AND(
-            LEN(r) == LEN(c) - 1, FORALL_IDX(r, lambda i, x: x == AT(c, i))))}
+        from .names import IS_NAMESPACE_OF
+
+        return {"components-are-all-but-the-last": IS_NAMESPACE_OF(s.result, s.self._name)}
 
 
 # ---- ServiceType.__init__
